@@ -7,6 +7,7 @@ VERIF=$(cd "$(dirname "$0")/.." && pwd)
 export GOPROXY=off GOFLAGS=-mod=mod
 mkdir -p "$VERIF/variants/$ID"
 for n in 1 2 3; do
+  [ -f "$SRC/_benign/patch$n.diff" ] || continue
   P="$SRC/_benign/patch$n.diff"
   [ -f "$P" ] || { echo "$ID patch$n: missing"; continue; }
   W=$(mktemp -d /tmp/hkimp.XXXXXX)
